@@ -511,6 +511,11 @@ func (rg *Range) callAxioms(name string, c *ssa.Call) {
 		if y, ok := rg.lin(c.Call.Args[1]); ok {
 			rg.axiom(a.minus(y))
 		}
+	case "bytes.IndexByte", "bytes.Index", "bytes.LastIndexByte", "bytes.LastIndex", "bytes.IndexAny", "bytes.IndexRune",
+		"strings.IndexByte", "strings.Index", "strings.LastIndexByte", "strings.LastIndex", "strings.IndexAny", "strings.IndexRune":
+		// documented contract: -1 or a valid index of the first argument
+		rg.axiom(a.addConst(1))
+		rg.axiom(rg.lenOf(c.Call.Args[0]).minus(a).addConst(-1))
 	case "builtin.min", "builtin.max":
 	case "(*math/big.Int).BitLen", "(*math/big.Int).TrailingZeroBits":
 		rg.axiom(a)
